@@ -152,8 +152,17 @@ static void run_domains(int tier)
 
 /* basic objects */
 static const struct { int o; uint16_t idx; uint8_t sub; } BASIC[] = { {O_U8, 0x2000, 0}, {O_U16, 0x2001, 0}, {O_U32, 0x2002, 0}, {O_U32D, 0x2003, 0}, {O_NID, 0x2006, 0}, {O_U16D, 0x2007, 0}, {O_U8D, 0x2008, 0}, {O_U32Z, 0x2009, 0}, {O_SUB1, 0xA030, 1}, {O_DOM3, 0x2010, 0} };
-static void basic_case(int b, uint32_t L, int mode, int announce)
+/* value patterns for the basic objects: position-dependent bytes, all zero, the node id minus one, all ones - small numbers meet the
+ * node-id arithmetic of the node-id relative objects, zero meets "Data == 0" of the direct ones */
+static const uint8_t *basic_payload(int pat)
 {
+    static uint8_t Z[8], N1[8], FF[8];
+    memset(Z, 0, 8); memset(N1, 0, 8); N1[0] = (uint8_t)(SDO_NODEID - 1); memset(FF, 0xFF, 8);
+    return pat == 0 ? PAY : pat == 1 ? Z : pat == 2 ? N1 : FF;
+}
+static void basic_case(int b, uint32_t L, int mode, int announce_pat)
+{
+    int announce = announce_pat & 1; const uint8_t *PAY = basic_payload(announce_pat >> 1);
     int r, o = BASIC[b].o; uint32_t S = OBJ[o].size; uint8_t v[8]; char smp[160];
     w_restore(snap0); w_obs_clear();
     cl_trace = 0; cl_frames = 0; cl_abort = 0;
@@ -178,8 +187,11 @@ static void run_basic(void)
         for (uint32_t L = S > 1 ? S - 1 : 1; L <= S + 1; L++) for (int mode = 0; mode < 4; mode++) for (int announce = 0; announce < 2; announce++) {
             if (mode <= 1 && (L > 4 || announce)) continue;
             if (mode == 1 && L != S) continue;
-            mc_case(5, 1, (int)b, (int)L, mode, announce);
-            basic_case((int)b, L, mode, announce);
+            for (int pat = 0; pat < 4; pat++) {
+                if (pat && L != S) continue;
+                mc_case(5, 1, (int)b, (int)L, mode, announce + 2 * pat);
+                basic_case((int)b, L, mode, announce + 2 * pat);
+            }
         }
     }
 }
